@@ -384,9 +384,15 @@ Definition obs_atoms (s : st) : list Z :=
   | Ok xs => flat_map (fun x => enc_call (call_of_atom x)) xs
   | Err e => [- e]
   end.
+(* The public iterator adaptors (IteratorAdaptor = TheoryElementIterator / TheoryTermIterator of theory_data.h) are a pointer into
+   a stored id list plus the store: a walk over them (prefix / postfix ++ from begin, prefix / postfix -- from end, *, ->, ==, !=,
+   copy, swap, std algorithms) yields exactly the stored ids in order / in reverse, each dereferenced through getElement / getTerm.
+   The harness performs every such walk over every item it reads back and over every item handed to its visitor, compares it with the
+   direct begin()/size() view and prints the mask of the walks that differ: in the model that mask is the constant 0. *)
+Definition adaptor_walk_mask (s : st) : Z := 0.
 Definition dump (probes : list Z) (s : st) : list Z :=
   flat_map (fun p => obs_term s p ++ obs_elem s p) probes ++
-  [numAtoms s] ++ obs_atoms s ++ [fatom s; live (hp s)].
+  [numAtoms s] ++ obs_atoms s ++ [fatom s; live (hp s); adaptor_walk_mask s].
 
 (* ---------- cases ---------- *)
 Inductive cop := CMut (o : op) | CVisit (cur : bool).
